@@ -73,6 +73,153 @@ let state () : string =
   with Go_panic -> Buffer.add_string b " statepanic");
   Buffer.contents b
 
+
+(* ---------------------------------------------------------------------------------------------
+   handler-level cases (Raft/Core.v): the line is a stream of unsigned integers written by
+   harness/internal/raftdrv/core.go (writePre + inputs) *)
+let toks : string array ref = ref [||]
+let pos = ref 0
+let rn () : n = let t = !toks.(!pos) in incr pos; n_of_dec_big t
+let ri () : int = let t = !toks.(!pos) in incr pos; int_of_string t
+let rb () : bool = ri () <> 0
+let rlist (f : unit -> 'a) : 'a list = let k = ri () in List.init k (fun _ -> f ())
+let rentry () : entry = let i = rn () in let t = rn () in let dd = rn () in let sz = rn () in
+  { eterm = t; eindex = i; edata = dd; esz = sz }
+let rsnap () : snapmeta option =
+  if rb () then begin
+    let i = rn () in let t = rn () in let v = rlist rn in let l = rlist rn in
+    Some { s_index = i; s_term = t; s_voters = v; s_learners = l } end
+  else None
+let rmsg () : msg =
+  let ty = rn () in let to_ = rn () in let from = rn () in let term = rn () in let lt = rn () in
+  let idx = rn () in let cm = rn () in let rej = rb () in let hint = rn () in let ctx = rn () in
+  let local = rb () in
+  let props = rlist (fun () -> let dd = rn () in let dl = ri () in (dd, if dl = 0 then None else Some (n_of_int (dl - 1)))) in
+  let ents = rlist rentry in
+  let snap = rsnap () in
+  { m_type = ty; m_to = to_; m_from = from; m_term = term; m_logterm = lt; m_index = idx; m_ents = ents;
+    m_commit = cm; m_snap = snap; m_reject = rej; m_hint = hint; m_ctx = ctx; m_props = props; m_local = local }
+let rprogress () : progress =
+  let id = rn () in let mt = rn () in let nx = rn () in let st = rn () in let pa = rb () in
+  let pend = rn () in let rec_ = rb () in let lrn = rb () in let ins = rlist rn in
+  { p_id = id; p_match = mt; p_next = nx; p_state = st; p_paused = pa; p_pending = pend; p_recent = rec_;
+    p_learner = lrn; p_ins = ins }
+
+(* the pre-state: returns (raft state without r_rnd set, node bookkeeping) *)
+let rpre (rnd : n) : raftst * prevst =
+  let id = rn () in let term = rn () in let vote = rn () in let state = rn () in let lrn = rb () in
+  let lead = rn () in let tee = rn () in let pc = rb () in let el = rn () in let hb = rn () in
+  let cq = rb () in let pv = rb () in let hbt = rn () in let elt = rn () in let rt = rn () in
+  let maxinf = rn () in let maxmsg = rn () in
+  let votes = rlist (fun () -> let i = rn () in let g = rb () in (i, g)) in
+  let prs = rlist rprogress in
+  let lprs = rlist rprogress in
+  let msgs = rlist rmsg in
+  let committed = rn () in let applied = rn () in let maxnext = rn () in
+  let usnap, usconf = (if rb () then begin
+      let i = rn () in let t = rn () in let v = rlist rn in let l = rlist rn in (Some (i, t), (v, l)) end
+    else (None, ([], []))) in
+  let uoff = rn () in
+  let uents = rlist rentry in
+  let si = rn () in let st = rn () in let sv = rlist rn in let sl = rlist rn in
+  let sents = rlist rentry in
+  let psl = rn () in let pss = rn () in let pht = rn () in let phv = rn () in let phc = rn () in let plead = rn () in
+  let phave = rb () in let pui = rn () in let put_ = rn () in let psnapi = rn () in
+  let log = { l_st = SMem { ms_snapi = si; ms_snapt = st; ms_ents = sents };
+              l_u = { u_snap = usnap; u_ents = uents; u_off = uoff };
+              l_committed = committed; l_applied = applied; l_maxnext = maxnext } in
+  ({ r_id = id; r_term = term; r_vote = vote; r_log = log; r_maxinflight = maxinf; r_maxmsg = maxmsg;
+     r_prs = prs; r_lprs = lprs; r_state = state; r_islearner = lrn; r_votes = votes; r_msgs = msgs;
+     r_lead = lead; r_transferee = tee; r_pendingconf = pc; r_elapsed = el; r_hbelapsed = hb; r_cq = cq;
+     r_pv = pv; r_hbtimeout = hbt; r_eltimeout = elt; r_randtimeout = rt; r_rnd = rnd;
+     r_stconf = (sv, sl); r_usconf = usconf },
+   { pv_soft_lead = psl; pv_soft_state = pss; pv_hs = ((pht, phv), phc); pv_lead = plead;
+     pv_have_unstable = phave; pv_unstable_i = pui; pv_unstable_t = put_; pv_snapi = psnapi })
+
+let b01 b = if b then "1" else "0"
+let show_ents4 (es : entry list) : string =
+  if es = [] then "-" else
+  String.concat "," (List.map (fun e -> Printf.sprintf "%s.%s.%s.%s" (d e.eindex) (d e.eterm) (d e.edata) (d e.esz)) es)
+let show_u (l : n list) = String.concat "," (List.map d l)
+let show_snapmeta = function
+  | None -> "-"
+  | Some s -> Printf.sprintf "%s:%s:%s/%s" (d s.s_index) (d s.s_term) (show_u s.s_voters) (show_u s.s_learners)
+let show_prs (ps : progress list) =
+  if ps = [] then "-" else
+  String.concat "," (List.map (fun p ->
+    Printf.sprintf "%s:%s:%s:%s:%s:%s:%s:%s:%s" (d p.p_id) (d p.p_match) (d p.p_next) (d p.p_state) (b01 p.p_paused)
+      (d p.p_pending) (b01 p.p_recent) (b01 p.p_learner) (String.concat "/" (List.map d p.p_ins))) ps)
+let show_msg (m : msg) =
+  let body = if int_of_n m.m_type = 2 then "p" ^ String.concat "/" (List.map (fun (dd, _) -> d dd) m.m_props)
+    else (let s = show_ents4 m.m_ents in String.concat "/" (String.split_on_char ',' s)) in
+  Printf.sprintf "%s>%s:%s:%s:%s:%s:%s:%s:%s:%s:%s:%s" (d m.m_type) (d m.m_to) (d m.m_from) (d m.m_term) (d m.m_logterm)
+    (d m.m_index) (d m.m_commit) (b01 m.m_reject) (d m.m_hint) (d m.m_ctx) body (show_snapmeta m.m_snap)
+let show_msgs (ms : msg list) =
+  if ms = [] then "-" else
+  let c = List.stable_sort (fun a b -> compare (int_of_n a.m_to) (int_of_n b.m_to)) ms in
+  String.concat " " (List.map show_msg c)
+let show_state (r : raftst) : string =
+  let l = r.r_log in
+  let us = (match l.l_u.u_snap with
+            | Some (i, t) -> Printf.sprintf "%s:%s:%s/%s" (d i) (d t) (show_u (fst r.r_usconf)) (show_u (snd r.r_usconf))
+            | None -> "-") in
+  Printf.sprintf "term=%s vote=%s st=%s lrn=%s lead=%s tee=%s pc=%s el=%s hb=%s rt=%s votes=%s prs=%s lprs=%s c=%s a=%s uo=%s us=%s ue=%s"
+    (d r.r_term) (d r.r_vote) (d r.r_state) (b01 r.r_islearner) (d r.r_lead) (d r.r_transferee) (b01 r.r_pendingconf)
+    (d r.r_elapsed) (d r.r_hbelapsed) (d r.r_randtimeout)
+    (String.concat "," (List.map (fun (i, g) -> d i ^ ":" ^ b01 g) r.r_votes))
+    (show_prs r.r_prs) (show_prs r.r_lprs) (d l.l_committed) (d l.l_applied) (d l.l_u.u_off) us (show_ents4 l.l_u.u_ents)
+let show_prev (p : prevst) : string =
+  let ((t, v), c) = p.pv_hs in
+  Printf.sprintf "psoft=%s:%s phs=%s:%s:%s plead=%s pun=%s:%s:%s psnap=%s" (d p.pv_soft_lead) (d p.pv_soft_state) (d t) (d v) (d c)
+    (d p.pv_lead) (b01 p.pv_have_unstable) (d p.pv_unstable_i) (d p.pv_unstable_t) (d p.pv_snapi)
+let show_ready = function
+  | None -> "rd=none"
+  | Some rd ->
+    let soft = (match rd.rd_soft with Some (l, s) -> d l ^ ":" ^ d s | None -> "-") in
+    let hs = (match rd.rd_hs with Some ((t, v), c) -> Printf.sprintf "%s:%s:%s" (d t) (d v) (d c) | None -> "-") in
+    Printf.sprintf "rd=soft=%s hs=%s ents=%s cents=%s more=%s snap=%s sync=%s msgs=%s" soft hs (show_ents4 rd.rd_ents)
+      (show_ents4 rd.rd_cents) (b01 rd.rd_more) (show_snapmeta rd.rd_snap) (b01 rd.rd_sync) (show_msgs rd.rd_msgs)
+
+let core_case (id : string) (kind : string) (line : string) : unit =
+  toks := Array.of_list (List.filter (fun s -> s <> "") (String.split_on_char ' ' line));
+  pos := 0;
+  let out =
+    (try
+      (match kind with
+       | "S" ->
+         let rnd = rn () in let more = rb () in let busy = rb () in
+         let (r, pv) = rpre rnd in
+         let msgs = rlist rmsg in
+         let nticks = ri () in
+         let cc = (if rb () then (let t = rn () in let i = rn () in Some (t, i)) else None) in
+         let props = List.map (fun m -> m.m_props) (rlist rmsg) in
+         (match step_node r pv msgs (nat_of_int nticks) cc props more busy with
+          | Ok (((r', plead), used), rd) ->
+            Printf.sprintf "%s plead=%s used=%s %s" (show_state r') (d plead) (b01 (used || props = [])) (show_ready rd)
+          | _ -> "panic")
+       | "A" ->
+         let (r, pv) = rpre N0 in
+         let soft = (if rb () then (let l = rn () in let s = rn () in Some (l, s)) else None) in
+         let hs = (if rb () then (let t = rn () in let v = rn () in let c = rn () in Some ((t, v), c)) else None) in
+         let ents = (if rb () then (let i = rn () in let t = rn () in [{ eterm = t; eindex = i; edata = N0; esz = N0 }]) else []) in
+         let cents = (if rb () then (let i = rn () in [{ eterm = N0; eindex = i; edata = N0; esz = N0 }]) else []) in
+         let si = rn () in
+         let snap = (if si = N0 then None else Some { s_index = si; s_term = N0; s_voters = []; s_learners = [] }) in
+         let rd = { rd_soft = soft; rd_hs = hs; rd_ents = ents; rd_cents = cents; rd_more = false; rd_snap = snap;
+                    rd_msgs = []; rd_sync = false } in
+         (match advance r pv rd with
+          | Ok (r', pv') -> show_state r' ^ " " ^ show_prev pv'
+          | _ -> "panic")
+       | "C" ->
+         let (r, _) = rpre N0 in
+         let t = rn () in let i = rn () in
+         (match process_conf_changed r t i true with
+          | Ok (_, r') -> show_state r' ^ " msgs=" ^ show_msgs r'.r_msgs
+          | _ -> "panic")
+       | _ -> "badkind")
+    with Invalid_argument _ | Failure _ -> "parse-error") in
+  Printf.printf "%s\t%s\n" id out
+
 let the_log () = match !cur_log with Some l -> l | None -> failwith "no log"
 let unres = function Ok x -> x | Err _ -> raise Go_panic | Panic -> raise Go_panic
 
@@ -86,6 +233,7 @@ let () =
       (match commit_index l with
        | Some v -> Printf.printf "%s\tq=%s commit=%s\n" id (d q) (d v)
        | None -> Printf.printf "%s\tpanic\n" id)
+    | id :: kind :: body :: _ when String.length id > 0 && id.[0] = 'c' -> core_case id kind body
     | id :: op :: args ->
       if String.length id > 0 && id.[0] = 'L' then begin
         (* a new case starts with op index 0 *)
